@@ -385,6 +385,43 @@ func propC17(c C17Case) error {
 			}
 		case "getrules":
 			if len(pending) > 0 {
+				// the same for a request that returns data: the ACKs of the NoWait requests are in front of its
+				// replies; GetRules either says so (end of the history) or has read its own replies only
+				plain := k.Seq != 0 && k.Seq+1 != 0
+				for _, p := range pending {
+					if p.hard != 0 || p.bad != 0 || p.seq == 0 {
+						plain = false
+					}
+				}
+				if !plain {
+					continue
+				}
+				k.OnSend = nil
+				k.Queue = nil
+				for _, p := range pending {
+					k.Push(simk.Ack(p.seq, p.errno, uint16(uapi.A("AUDIT_SET"))))
+				}
+				k.OnSend = func(k *simk.K, s simk.Sent) {
+					k.Push(simk.Ack(s.Seq, 0, s.Type))
+					for _, r := range o.Rules {
+						k.Push(simk.Msg(uint16(uapi.A("AUDIT_LIST_RULES")), syscall.NLM_F_MULTI, s.Seq, 0, r))
+					}
+					k.Push(simk.Msg(syscall.NLMSG_DONE, syscall.NLM_F_MULTI, s.Seq, 0, nil))
+				}
+				got, err := cl.GetRules()
+				k.OnSend = nil
+				if err != nil {
+					hC17.Class("synchronous-request-meets-pending-acks-and-says-so")
+					return nil
+				}
+				if len(got) != len(o.Rules) {
+					return fmt.Errorf("%s (with %d ACKs of NoWait requests unread): %d rules returned, kernel sent %d", what, len(pending), len(got), len(o.Rules))
+				}
+				if len(k.Queue) != len(pending) {
+					return fmt.Errorf("%s: GetRules reported success and read %d of the %d acknowledgements that belong to NoWait requests: only WaitForPendingACKs consumes those, and it has to report the first kernel error among them",
+						what, len(pending)-len(k.Queue), len(pending))
+				}
+				hC17.Class("synchronous-request-leaves-pending-acks-alone")
 				continue
 			}
 			k.Queue = nil
